@@ -26,9 +26,10 @@ import (
 // the returns of the summarised function's own root.
 
 type e3Run struct {
-	name string
-	eng  *absint.Engine
-	dur  time.Duration
+	name  string
+	eng   *absint.Engine
+	dur   time.Duration
+	level int // 0: K as configured; n: K·2ⁿ was needed
 }
 
 type rootCtx struct {
@@ -221,9 +222,8 @@ func (sr *sqlRoots) run(name string, cfg absint.Config, fn *ssa.Function, setup 
 		}
 	}(time.Now())
 	t0 := time.Now()
-	e := absint.NewEngine(sr.env.p, cfg)
-	e.RunRoot(fn, setup)
-	r := &e3Run{name: name, eng: e, dur: time.Since(t0)}
+	e, level := sr.env.runEscalating(cfg, fn, setup)
+	r := &e3Run{name: name, eng: e, dur: time.Since(t0), level: level}
 	sr.mu.Lock()
 	sr.runs = append(sr.runs, r)
 	sr.mu.Unlock()
@@ -238,6 +238,14 @@ func (sr *sqlRoots) lexerReturnHook(root *ssa.Function, pos0 absint.Lin, length 
 		}
 		iv, ok := val.(absint.IntV)
 		good := ok && e.ProveLE(st, pos0.AddK(1), iv.L)
+		if !good && os.Getenv("VERIF_DBGPSTEP") == root.Name() && e.Logging() && e.Feasible(st) {
+			fmt.Fprintf(os.Stderr, "PSTEP %s ret=%s\n", retLabel(ret), e.ValStr(val))
+			e.DumpCons(st, os.Stderr)
+			for _, bf := range e.ByteFacts(st, -999) {
+				_ = bf
+			}
+			e.DumpMasks(st, os.Stderr)
+		}
 		e.Check(st, fr, ret.Pos(), "P-step", "lexer consumes ≥ 1 byte: "+retLabel(ret), good, "cannot show ret ≥ pos@entry + 1: a scan step that consumes nothing never terminates")
 		good = ok && e.ProveLE(st, iv.L, length)
 		e.Check(st, fr, ret.Pos(), "P-step", "lexer stays inside the input: "+retLabel(ret), good, "cannot show ret ≤ length")
@@ -478,7 +486,7 @@ func (sr *sqlRoots) describe() []string {
 		if os.Getenv("VERIF_LPTAGS") != "" {
 			out = append(out, fmt.Sprintf("   tags %s: %v", r.name, r.eng.LP.ByTag))
 		}
-		out = append(out, fmt.Sprintf("%s: %d obligations, %d undischarged, %d inlinings, %d LPs (avg %d cons, max %d), %.1fs", r.name, n, bad, r.eng.Inlined, r.eng.LP.Calls, r.eng.LP.SumCons/(r.eng.LP.Calls+1), r.eng.LP.MaxCons, r.dur.Seconds()))
+		out = append(out, fmt.Sprintf("%s: %d obligations, %d undischarged, %d inlinings, %d LPs (avg %d cons, max %d), %.1fs%s", r.name, n, bad, r.eng.Inlined, r.eng.LP.Calls, r.eng.LP.SumCons/(r.eng.LP.Calls+1), r.eng.LP.MaxCons, r.dur.Seconds(), levelNote(r.level)))
 	}
 	return out
 }
